@@ -19,12 +19,16 @@ ASSUMPTIONS = [
     "single writer (rely/guarantee, DESIGN 2.3): a syntactic census over proxy_agent/src on every run shows that outside #[cfg(test)] items the mutating "
     "wrapper methods are called only from KeyKeeper::loop_poll (and, inside key_keeper_wrapper.rs, only by the composite methods verified here); "
     "therefore S is NOT havocked between two awaits of an iteration. If the census changes the unit is UNDECIDED",
-    "set_*_rules(Some(item)) stores computed(item) = ComputedAuthorizationItem::from_authorization_item(item) (C02's compute; uninterpreted here)",
+    "set_*_rules(Some(item)) stores computed(item) = ComputedAuthorizationItem::from_authorization_item(item) (C02's compute; uninterpreted here): the "
+    "real bodies are under contract in unit `actors` (C09.set_<e>_rules.*: ONE Set<E>Rules message carrying computed_opt(rules), Ok only after the actor "
+    "answered; arm C09.actor.Set<E>Rules.stores_its_argument); computed/computed_opt and the endpoint table are imported from that unit's unit.py",
     "host stubs key::get_status / acquire_key / attest_key: real signatures, HTTP bodies not verified; get_status returns Ok only for a document that "
     "passed validate() (its last two statements are verified as the slice vx_get_status_tail); acquire/attest record their call and result in the ghost Host",
     "key-store functions fetch_key / store_key / check_key: contracts PROVED in unit `keystore` (same contract text imported from its unit.py), assumed here",
-    "redirector::update_{wire_server,imds,hostga}_redirect_policy (stubs): each records (endpoint, flag) in the ghost Redir; that the BPF map is then "
-    "programmed accordingly is C06's business",
+    "redirector::update_{wire_server,imds,hostga}_redirect_policy (stubs): each records (endpoint, flag) in the ghost Redir; their real bodies are under "
+    "contract in unit `redirect` (C09+C06.update_<e>_redirect_policy.*: exactly one BpfObject::update_redirect_policy(address and port of THAT endpoint, "
+    "local port, flag) when a BPF object is present; function<->endpoint table and the Endpoint enum imported from that unit's unit.py); what that call "
+    "does to the BPF map is C06 (kani/ebpf_rs)",
     "stubs without behaviour that matters here: logger::{write,write_information,write_warning,write_error}, helpers::write_startup_event, "
     "event_logger::write_event, provision::{key_latched,key_latch_ready_state_reset} (census: make no mutating key-keeper call), "
     "AgentStatusSharedState::set_module_status_message, AuthorizationRulesForLogging::{new,write_all} (C19), acl::acl_directory, "
@@ -208,13 +212,26 @@ def redirect_contract(e):
 """ % e
 
 
-# contracts of the key-store functions: PROVED in unit `keystore` (same text), assumed here
-def keystore_contracts():
+def sibling_unit(name):
     import importlib.util
-    spec = importlib.util.spec_from_file_location("unit_keystore_for_keykeeper", os.path.join(KEYSTORE, "unit.py"))
+    spec = importlib.util.spec_from_file_location("unit_%s_for_keykeeper" % name, os.path.join(CONTRACTS, name, "unit.py"))
     m = importlib.util.module_from_spec(spec)
     spec.loader.exec_module(m)
     return m
+
+
+# contracts of the key-store functions: PROVED in unit `keystore` (same text), assumed here
+def keystore_contracts():
+    return sibling_unit("keystore")
+
+
+# vocabulary of the stubs whose real bodies are under contract elsewhere, imported from THE unit that proves them:
+#   actors:   ENDPOINTS (set_<stem>_rules <-> Endpoint), COMPUTED_SPEC (computed / computed_opt): set_*_rules sends ONE Set<E>Rules message
+#             carrying computed_opt(rules) and returns Ok only after the actor answered; the arm stores it in its own slot
+#   redirect: REDIRECT_FNS (update_<e>_redirect_policy <-> Endpoint), ENDPOINT_SPEC: each update hands ITS endpoint's address/port, the
+#             local port and the flag to BpfObject::update_redirect_policy exactly once
+ACTORS = sibling_unit("actors")
+REDIRECT = sibling_unit("redirect")
 
 
 POLL_CONTRACT = """
@@ -387,7 +404,9 @@ def build(u):
     for f in ("fs_spec.rs", "deps.rs", "spec.rs"):
         u.raw("// ---- contracts/keystore/%s\n" % f + open(os.path.join(KEYSTORE, f)).read())
     u.raw_file("deps.rs")
+    u.raw(REDIRECT.ENDPOINT_SPEC)
     u.raw_file("status_spec.rs")
+    u.raw(ACTORS.COMPUTED_SPEC)
     u.raw_file("poll_spec.rs")
     u.raw_file("poll_deps.rs")
     with u.mod("proxy_agent_shared"):
@@ -455,7 +474,7 @@ def build(u):
                 u.take_fn(kkw, "KeyKeeperSharedState::get_key", external_body=True, ghost=A_, contract=msg_get_contract("v == old(a).s.key"))
                 u.take_fn(kkw, "KeyKeeperSharedState::set_secure_channel_state", external_body=True, ghost=A_, contract=msg_set_contract("KkState { state: state@, ..old(a).s }", "Mut::State(state@)"))
                 u.take_fn(kkw, "KeyKeeperSharedState::get_current_secure_channel_state", external_body=True, ghost=A_, contract=msg_get_contract("v@ == old(a).s.state"))
-                for (n, e) in (("wireserver", "WireServer"), ("imds", "Imds"), ("hostga", "HostGA")):
+                for (n, e) in ACTORS.ENDPOINTS:
                     u.take_fn(kkw, "KeyKeeperSharedState::set_%s_rule_id" % n, external_body=True, ghost=A_,
                               contract=msg_set_contract("old(a).s.with_rule_id(Endpoint::%s, rule_id@)" % e, "Mut::RuleId(Endpoint::%s, rule_id@)" % e))
                     u.take_fn(kkw, "KeyKeeperSharedState::get_%s_rule_id" % n, external_body=True, ghost=A_, contract=msg_get_contract("v@ == old(a).s.rule_id(Endpoint::%s)" % e))
@@ -481,7 +500,7 @@ def build(u):
         u.take_fn(pv, "key_latched", external_body=True, ret="")
         u.take_fn(pv, "key_latch_ready_state_reset", external_body=True, ret="")
     with u.mod("redirector", uses="use crate::shared_state::redirector_wrapper::RedirectorSharedState;"):
-        for (f, e) in (("update_wire_server_redirect_policy", "WireServer"), ("update_imds_redirect_policy", "Imds"), ("update_hostga_redirect_policy", "HostGA")):
+        for (f, e) in REDIRECT.REDIRECT_FNS:
             u.take_fn(rl, f, external_body=True, ghost=RD_, contract=redirect_contract(e), ret="")
     with u.mod("key_keeper", uses=KK_USES):
         for c in ("DISABLE_STATE", "MUST_SIG_WIRESERVER", "MUST_SIG_WIRESERVER_IMDS", "UNKNOWN_STATE", "PROVISION_TIMEUP_IN_MILLISECONDS"):
